@@ -193,6 +193,14 @@ class Geo:
                     pts.append(mid - nrm * delta)
         return np.concatenate(pts)
 
+    def area_estimate(self):
+        """nonzero-filled area from the 32x32 lattice (resolution bbox/1024); exact enough to tell 'tiny' from not"""
+        if not len(self.A):
+            return 0.0
+        self.witness("nonzero")
+        x0, y0, x1, y1 = self.A[:, 0].min(), self.A[:, 1].min(), self.A[:, 0].max(), self.A[:, 1].max()
+        return float((self._wind[:1024] != 0).sum()) / 1024.0 * float((x1 - x0) * (y1 - y0))
+
     def witness(self, rule):
         """-> (x, y, distance to the nearest edge) of a point robustly inside the fill region, or None."""
         key = "_w_" + rule
@@ -206,11 +214,14 @@ class Geo:
                 self._dist = None
             ins = (self._wind % 2 != 0) if rule == "evenodd" else (self._wind != 0)
             if ins.any():
-                idx = np.nonzero(ins)[0]
-                dd = geom.dist_to_edges(self._cand[idx], self.A, self.B)
-                j = int(np.argmax(dd))
-                if dd[j] >= self.margin:
-                    res = (float(self._cand[idx[j]][0]), float(self._cand[idx[j]][1]), float(dd[j]))
+                idx_all = np.nonzero(ins)[0]
+                # cheap pass over a strided sample first; all inside candidates only when that fails
+                for idx in ((idx_all[:: len(idx_all) // 96 + 1], idx_all) if len(idx_all) > 128 else (idx_all,)):
+                    dd = geom.dist_to_edges(self._cand[idx], self.A, self.B)
+                    j = int(np.argmax(dd))
+                    if dd[j] >= self.margin:
+                        res = (float(self._cand[idx[j]][0]), float(self._cand[idx[j]][1]), float(dd[j]))
+                        break
         setattr(self, key, res)
         return res
 
@@ -231,7 +242,8 @@ def _geo_traps(geo: Geo, pm, fillable, labels):
     if w_nz is not None:
         # small painted area (estimate: disc around the witness is a lower bound; bbox an upper bound)
         bw, bh = geo.bbox[2] - geo.bbox[0], geo.bbox[3] - geo.bbox[1]
-        if bw * bh < 1e-6 * geo.extent**2 or w_nz[2] < 1e-4 * geo.extent:
+        sa = abs(geo.signed_area())
+        if bw * bh < 1e-6 * geo.extent**2 or 1e-9 * geo.extent**2 < sa < 1e-6 * geo.extent**2:
             traps.append("small-area")
     return traps, w_nz, w_eo
 
@@ -253,9 +265,24 @@ def _tiny_contours_only(subs, rule) -> bool:
     return Geo(rest).witness(rule) is None
 
 
+def _geo_tiny_areal(gs) -> bool:
+    # both the shoelace area and the lattice estimate: a symmetric bow-tie has shoelace area 0 but is not tiny
+    return bool(len(gs.A)) and gs.witness("nonzero") is not None and abs(gs.signed_area()) < TINY_AREA and gs.area_estimate() < TINY_AREA
+
+
 def _is_tiny_areal(sp) -> bool:
-    gs = Geo([sp])
-    return bool(len(gs.A)) and gs.witness("nonzero") is not None and abs(gs.signed_area()) < TINY_AREA
+    return _geo_tiny_areal(Geo([sp]))
+
+
+def _per_sub(subs):
+    """one Geo per subpath, cached on the list object's first element (cases are evaluated one at a time)"""
+    key = id(subs)
+    if _per_sub.cache[0] != key:
+        _per_sub.cache = (key, [Geo([sp]) for sp in subs], subs)
+    return _per_sub.cache[1]
+
+
+_per_sub.cache = (None, None, None)
 
 
 def check_shape(case) -> Result:
@@ -446,9 +473,8 @@ def check_subpaths(case) -> Result:
             # neutraliser for known finding ENGINE-TINY-CONTOUR: every changed point lies inside a contour that on
             # its own encloses less than TINY_AREA (the engine lost that contour)
             in_tiny = np.zeros(len(P), dtype=bool)
-            for sp in subs0:
-                if _is_tiny_areal(sp):
-                    gt = Geo([sp])
+            for gt in _per_sub(subs0):
+                if _geo_tiny_areal(gt):
                     in_tiny |= geom.inside(P, gt.A, gt.B, "nonzero")
             if not (bad & ~in_tiny).any():
                 r.excluded = "ENGINE-TINY-CONTOUR"
@@ -473,14 +499,11 @@ def check_subpaths(case) -> Result:
             i = int(np.nonzero(bad)[0][0])
             r.bad("stroke-region-changed", f"remove_empty_subpaths() of <path d={d!r} {_attrs(a, s)}> gave d={out_d!r}: {int(bad.sum())} points change stroke membership, e.g. ({P[i][0]!r},{P[i][1]!r}) in stroke before={bool(c0[i] == 1)} after={bool(c1[i] == 1)} (stroke {eff(a, s, 'stroke')} width {sw:g})")
     # which subpaths look empty on their own (no area under nonzero): the ones the method is after
-    lone_empty = 0
-    for sp in subs0:
-        gs = Geo([sp])
-        if gs.witness("nonzero") is None:
-            lone_empty += 1
+    per = _per_sub(subs0)
+    lone_empty = sum(1 for gs in per if gs.witness("nonzero") is None)
     if lone_empty:
         cl.append("has-areal-empty-subpath")
-    if lone_empty and pm["stroke"] and any(Geo([sp]).witness("nonzero") is None and Geo([sp]).has_drawn_segment() for sp in subs0):
+    if lone_empty and pm["stroke"] and any(gs.witness("nonzero") is None and gs.has_drawn_segment() for gs in per):
         cl.append("stroked-zero-area-subpath")
     r.classes = tuple(cl)
     paints = (pm["fill"] and stats["fill_in"] >= 3) or (pm["stroke"] and stats["stroke_in"] >= 3)
@@ -548,6 +571,6 @@ def _d_attrs(text):
 
 SUBCHECKS = {
     "shape": Sub("shape", check_shape, strategy=lambda ctx: c18_gen.shape_case(), examples={"quick": 1500, "thorough": 6000}),
-    "subpaths": Sub("subpaths", check_subpaths, strategy=lambda ctx: c18_gen.subpaths_case(), examples={"quick": 700, "thorough": 3000}),
-    "doc": Sub("doc", check_doc, strategy=lambda ctx: c18_gen.doc_case(), examples={"quick": 350, "thorough": 1500}, describe=lambda c: {"op": c["op"], "svg": c["svg"]}),
+    "subpaths": Sub("subpaths", check_subpaths, strategy=lambda ctx: c18_gen.subpaths_case(), examples={"quick": 700, "thorough": 2500}),
+    "doc": Sub("doc", check_doc, strategy=lambda ctx: c18_gen.doc_case(), examples={"quick": 350, "thorough": 1200}, describe=lambda c: {"op": c["op"], "svg": c["svg"]}),
 }
